@@ -453,7 +453,7 @@ func runTunnel(run *lib.Run, hb *lib.Heartbeat, rt *route, s *script, r *lib.RNG
 }
 
 func main() {
-	run := lib.Start("C03", "tunnel scripts (payload sizes 0..1 MiB (4 MiB thorough) per direction as self-describing offset streams, PRNG write segmentation 7 B..200 KB with pauses, in a third of the scripts a 1.3 s quiet period of one side (proxy idle-timeout 0.8 s, read-header-timeout 0.4 s), 0..8 KiB of client data coalesced with the CONNECT/Upgrade head (CONNECT as HTTP/1.1 or 1.0, with Connection: close / keep-alive / Proxy-Connection options), 0..4000 B of target data sent with the 200/101 reply, half-close order client-first / target-first / simultaneous, post-EOF data from the second closer) through routes direct, upstream http, upstream https, socks5, custom connect function and HTTP/1.1 Upgrade; far endpoints verify every byte by offset, the EOF position and closure; each script is first run on a control path without the proxy; distinct = (route, order, size classes, early-data presence) signatures")
+	run := lib.Start("C03", "tunnel scripts (payload sizes 0..1 MiB (4 MiB thorough) per direction as self-describing offset streams, PRNG write segmentation 7 B..200 KB with pauses, in a third of the scripts a 1.3 s quiet period of one side (proxy idle-timeout 0.8 s, read-header-timeout 0.4 s), 0..8 KiB of client data coalesced with the CONNECT/Upgrade head (CONNECT as HTTP/1.1 or 1.0, with Connection: close / keep-alive / Proxy-Connection options or a Content-Length of 0 / 13; half of the routes, incl. the Upgrade route, log exchanges in body mode), 0..4000 B of target data sent with the 200/101 reply, half-close order client-first / target-first / simultaneous, post-EOF data from the second closer) through routes direct, upstream http, upstream https, socks5, custom connect function and HTTP/1.1 Upgrade; far endpoints verify every byte by offset, the EOF position and closure; each script is first run on a control path without the proxy; distinct = (route, order, size classes, early-data presence) signatures")
 	hb := lib.StartHeartbeat()
 	root := run.RNG()
 	ca := lib.NewCA("verif CA")
